@@ -17,6 +17,7 @@ def frag_junk_factory():
             d = bytes(enc.make_data(nm(name), enc.MetaInfo(), b'D%d' % (k + 10 * ni)))
             ws.append(pitkit.lp_wrap(d, frag=(0, 1)).hex())
             ws.append(pitkit.lp_wrap(d, frag=(0, 2), extra=True).hex())
+            ws.append(pitkit.lp_wrap(d, frag=(1, 2), odd=True).hex())      # Sequence, FragIndex, FragCount in NDNLPv2 order
     def junk(rng):
         return rng.choice(ws)
     return junk
@@ -47,10 +48,10 @@ def codec_roundtrips(ctx):
         got = enc.parse_lp_packet_v2(w)
         if got.pit_token is None or bytes(got.pit_token) != tok or bytes(got.fragment) != inner or got.nack is not None:
             ctx.violation('C10/parse_lp_packet_v2/pit-token', 'token %s decoded as %r' % (tok.hex(), got.pit_token), {'hex': w.hex()})
-    for fr in ((0, 1), (0, 2), (1, 2)):
+    for fr, odd in (((0, 1), False), ((0, 2), False), ((1, 2), False), ((0, 2), True), ((1, 2), True)):
         ctx.evaluations += 1
         try:
-            enc.parse_lp_packet_v2(pitkit.lp_wrap(inner, frag=fr))
+            enc.parse_lp_packet_v2(pitkit.lp_wrap(inner, frag=fr, odd=odd))
             ctx.violation('C10/parse_lp_packet_v2/fragment-accepted', 'fragmented envelope %r accepted' % (fr,), {})
         except enc.DecodeError:
             pass
